@@ -53,6 +53,10 @@ PROC = {'ok': 'FIX0001', 'nondict': 'FIXJUNK', 'none': 'NOSUCH1', 'raise': 'FIXB
         'raise_empty': 'FIXEMPT'}
 
 
+# DecodeHistoryProof.tla: HistoryIndependent and NoPoisoning for every history length and every set of modules
+PROOFS = ['DecodeHistoryProof']
+
+
 def model_checks(tier):
     return [dict(module='mc/MC_DecodeHistory', cfg='mc/MC_DecodeHistory_repaired', must_cover=['Decode'], workers=8)]
 
